@@ -38,36 +38,115 @@ def net(sym):
     raise KeyError(sym)
 
 
-def _b(x):
-    return list(x) if x else []
+_STUB = {}
 
 
 def is_stub(n):
-    """Groestlcoin family without groestlcoin_hash: the text layer is disabled (limitation L3)"""
-    return getattr(n, "Key", 1) is None and type(n.parse).__name__ == "GRSParseAPI"
+    """Groestlcoin family without groestlcoin_hash: the Base58 text layer cannot run (limitation L3).
+    Decided by public behaviour: the network's own Base58 encoder raises."""
+    k = id(n)
+    if k not in _STUB:
+        tag, v = call(n.address.for_p2pkh, b"\0" * 20)
+        _STUB[k] = tag == "exc"
+    return _STUB[k]
 
 
-def _plain_b58_hashed():
-    from pycoin.networks.ParseAPI import ParseAPI
-    return ParseAPI.parse_b58_hashed
+def _payload_of(text):
+    """payload of a Base58Check text under double-SHA256 (None: absent / other checksum function)"""
+    return b58check_dec(text) if isinstance(text, str) else None
+
+
+def _prefix_from(text, tail):
+    """version bytes of a serialisation whose payload must end with the known bytes `tail`"""
+    p = _payload_of(text)
+    if p is None or len(p) <= len(tail) or p[len(p) - len(tail):] != tail:
+        return []
+    return list(p[:len(p) - len(tail)])
+
+
+def _hook_payload(addr_api, f, h):
+    """stubbed networks: read the payload the encoder would checksum through the documented `b2a` hook of AddressAPI
+    ("b2a is stored as an instance attribute so that coin-specific networks can swap it out")"""
+    saved = addr_api.b2a
+    try:
+        addr_api.b2a = lambda blob: "hex:" + bytes(blob).hex()
+        v = f(h)
+    except Exception:  # noqa: BLE001
+        v = None
+    finally:
+        addr_api.b2a = saved
+    if isinstance(v, str) and v.startswith("hex:"):
+        pl = bytes.fromhex(v[4:])
+        if pl.endswith(h):
+            return list(pl[:len(pl) - len(h)])
+    return []
+
+
+def _private_crosscheck(n, row):
+    """optional: where pycoin still exposes the parser-side constants as attributes, note any difference
+    (informational - a real encoder/parser disagreement is found by the replays, from behaviour)"""
+    names = {"p2pkh": "_address_prefix", "p2sh": "_pay_to_script_prefix", "wif": "_wif_prefix",
+             "b32prv": "_bip32_prv_prefix", "b32pub": "_bip32_pub_prefix", "b49prv": "_bip49_prv_prefix",
+             "b49pub": "_bip49_pub_prefix", "b84prv": "_bip84_prv_prefix", "b84pub": "_bip84_pub_prefix"}
+    diff = {}
+    for k, a in names.items():
+        if hasattr(n.parse, a):
+            v = list(getattr(n.parse, a) or b"")
+            if v != row[k]:
+                if row["stub"] and not row[k]:
+                    row[k] = v          # not derivable without the groestl library: take the attribute when it exists
+                else:
+                    diff[k] = [bytes(row[k]).hex(), bytes(v).hex()]
+    return diff
+
+
+TABLE_NOTES = {}
 
 
 def table():
-    """the prefix table, read from the parser side of every network (configuration)"""
+    """the prefix table, derived from PUBLIC behaviour of every network: the version bytes are read off the texts
+    the network itself serialises for a known hash / key / node (Base58Check-decoded by the independent decoder)"""
     out = []
+    h = bytes(range(0x40, 0x54))
+    gpt = G
     for sym, n in networks():
-        p = n.parse
-        out.append({
-            "sym": sym,
-            "p2pkh": _b(p._address_prefix), "p2sh": _b(p._pay_to_script_prefix), "wif": _b(p._wif_prefix),
-            "b32prv": _b(p._bip32_prv_prefix), "b32pub": _b(p._bip32_pub_prefix),
-            "b49prv": _b(p._bip49_prv_prefix), "b49pub": _b(p._bip49_pub_prefix),
-            "b84prv": _b(p._bip84_prv_prefix), "b84pub": _b(p._bip84_pub_prefix),
-            "hrp": [ord(ch) for ch in (p._bech32_hrp or "")],
-            "sec": [ord(ch) for ch in (p._sec_prefix or "")],
-            "stub": bool(is_stub(n)),
-            "chk": "sha256d" if type(p).parse_b58_hashed is _plain_b58_hashed() else "groestl",
-        })
+        stub = is_stub(n)
+        row = {"sym": sym}
+        if stub:
+            row["p2pkh"] = _hook_payload(n.address, n.address.for_p2pkh, h)
+            row["p2sh"] = _hook_payload(n.address, n.address.for_p2sh, h)
+        else:
+            row["p2pkh"] = _prefix_from(call(n.address.for_p2pkh, h)[1], h)
+            row["p2sh"] = _prefix_from(call(n.address.for_p2sh, h)[1], h)
+        one = (1).to_bytes(32, "big")
+        row["wif"] = _prefix_from(call(lambda: n.keys.private(1).wif())[1], one + b"\x01")
+        tag, node = call(n.keys.bip32_seed, b"vf-table")
+        body_prv = body_pub = None
+        row["b32prv"] = row["b32pub"] = []
+        if tag == "ok" and node is not None:
+            body_prv, body_pub = node.serialize(as_private=True), node.serialize(as_private=False)
+            row["b32prv"] = _prefix_from(call(lambda: node.hwif(as_private=True))[1], body_prv)
+            row["b32pub"] = _prefix_from(call(lambda: node.hwif(as_private=False))[1], body_pub)
+        for fam, key in (("bip49", "b49"), ("bip84", "b84")):
+            row[key + "prv"] = row[key + "pub"] = []
+            if body_prv is None:
+                continue
+            tag, nd = call(getattr(n.keys, fam + "_deserialize"), b"\0\0\0\0" + body_prv)
+            if tag == "ok" and nd is not None:
+                row[key + "prv"] = _prefix_from(call(lambda: nd.hwif(as_private=True))[1], body_prv)
+                row[key + "pub"] = _prefix_from(call(lambda: nd.hwif(as_private=False))[1], body_pub)
+        tag, t = call(n.address.for_p2pkh_wit, h)
+        sd = segwit_dec(t) if tag == "ok" and isinstance(t, str) else None
+        row["hrp"] = [ord(c) for c in sd[0]] if sd and sd[2] == h else []
+        sec = sec_of(gpt, True)
+        tag, t = call(lambda: n.keys.public(gpt).as_text())
+        row["sec"] = [ord(c) for c in t[:-len(sec.hex())]] if tag == "ok" and isinstance(t, str) and t.endswith(sec.hex()) else []
+        row["stub"] = bool(stub)
+        row["chk"] = "groestl" if stub else "sha256d"
+        d = _private_crosscheck(n, row)
+        if d:
+            TABLE_NOTES[sym] = d
+        out.append(row)
     return out
 
 
@@ -165,6 +244,34 @@ def segwit(hrp, ver, prog, var):
     ex = [ord(c) >> 5 for c in hrp] + [0] + [ord(c) & 31 for c in hrp]
     pm = _polymod(ex + data + [0] * 6) ^ const
     return hrp + "1" + "".join(_BCH[d] for d in data + [(pm >> 5 * (5 - i)) & 31 for i in range(6)])
+
+
+def bech32_text(hrp, syms, var):
+    """the Bech32 / Bech32m text of (hrp, 5-bit data symbols)"""
+    const = 1 if var == "bech32" else 0x2bc830a3
+    data = list(syms)
+    ex = [ord(c) >> 5 for c in hrp] + [0] + [ord(c) & 31 for c in hrp]
+    pm = _polymod(ex + data + [0] * 6) ^ const
+    return hrp + "1" + "".join(_BCH[d] for d in data + [(pm >> 5 * (5 - i)) & 31 for i in range(6)])
+
+
+def bech32_dec(s):
+    """(hrp, data symbols, var) of a valid Bech32 / Bech32m text (BIP173 / BIP350 rules), else None"""
+    if not s or any(ord(c) < 33 or ord(c) > 126 for c in s) or (s.lower() != s and s.upper() != s):
+        return None
+    s = s.lower()
+    pos = s.rfind("1")
+    if pos < 1 or pos + 7 > len(s) or len(s) > 90:
+        return None
+    hrp, dp = s[:pos], s[pos + 1:]
+    if any(c not in _BCH for c in dp):
+        return None
+    data = [_BCH.index(c) for c in dp]
+    ex = [ord(c) >> 5 for c in hrp] + [0] + [ord(c) & 31 for c in hrp]
+    var = {1: "bech32", 0x2bc830a3: "bech32m"}.get(_polymod(ex + data))
+    if var is None:
+        return None
+    return hrp, data[:-6], var
 
 
 def segwit_dec(s):
@@ -376,12 +483,28 @@ def classify(n, script):
 
 
 # ---------------------------------------------------------------- calling parsers
+class _Null(object):
+    def write(self, _):
+        return 0
+
+    def flush(self):
+        pass
+
+
+_NULL = _Null()
+
+
 def call(f, *a):
-    """('ok', value) | ('exc', TypeName)"""
+    """('ok', value) | ('exc', TypeName); pycoin's groestl stub prints a hint on every call: not shown"""
+    import sys
+    saved = sys.stdout
+    sys.stdout = _NULL
     try:
         return ("ok", f(*a))
     except Exception as e:  # noqa: BLE001 - totality is the property: the type is reported
         return ("exc", type(e).__name__)
+    finally:
+        sys.stdout = saved
 
 
 # ---------------------------------------------------------------- C18: text structures <-> characters
@@ -417,6 +540,8 @@ def text_of(t):
         if f == "segbad":
             s = s[:-1] + ("q" if s[-1] != "q" else "p")
         return s
+    if f == "bech":
+        return bech32_text(_chars(t["a"]), t["d"], t["w"])
     if f == "colon":
         if t["w"] == "hex":
             rest = bytes(t["d"]).hex()
@@ -475,9 +600,12 @@ def structure_of(s):
     if p is not None:
         on = len(p) == 78 and sec_oracle(p[45:])
         return _tx("b58c", d=list(p), w="sha256d", on=on)
-    sg = segwit_dec(s) if s == s.lower() else None
+    sg = segwit_dec(s)      # (an all-upper-case Bech32 text is the same text: BIP173)
     if sg is not None:
         return _tx("seg", a=[ord(c) for c in sg[0]], v=sg[1], d=list(sg[2]), w=sg[3])
+    bd = bech32_dec(s)
+    if bd is not None:
+        return _tx("bech", a=[ord(c) for c in bd[0]], d=list(bd[1]), w=bd[2])
     m = _SECPFX.match(s)
     if m:
         rest = m.group(2)
@@ -632,12 +760,6 @@ def project(obj):
         prv = obj.secret_exponent() is not None
         return [dict(base, k=cat, p=prv, d=list(obj.serialize(as_private=prv)))]
     if cat == "electrum":
-        if getattr(obj, "_initial_key", None) is not None:
-            try:
-                d = list(bytes.fromhex(obj._initial_key))
-            except ValueError:
-                d = [ord(c) for c in obj._initial_key]
-            return [dict(base, k="electrum", s="seed", p=True, d=d)]
         if obj.secret_exponent() is not None:
             return [dict(base, k="electrum", s="prv", p=True, d=list(obj.secret_exponent().to_bytes(32, "big")))]
         return [dict(base, k="electrum", s="pub", d=list(obj.master_public_key()))]
@@ -648,6 +770,22 @@ def project(obj):
         x, y = obj.public_pair()
         return [dict(base, k="key", d=list(x.to_bytes((max(x.bit_length(), 1) + 7) // 8, "big").rjust(32, b"\0")), d2=[y & 1], b=bool(obj.is_compressed()))]
     return [dict(base, k=cat)]
+
+
+_STRETCH = {}
+
+
+def electrum_stretch(seed_bytes):
+    """the master private key an electrum seed stands for: 100000 rounds of SHA-256 over (state ++ hex seed)
+    (evaluates the term OElectrum("seed", ..) denotes; cached)"""
+    k = bytes(seed_bytes)
+    if k not in _STRETCH:
+        seed = k.hex().encode("utf8")
+        b = seed
+        for _ in range(100000):
+            b = hashlib.sha256(b + seed).digest()
+        _STRETCH[k] = b
+    return _STRETCH[k]
 
 
 def material(obj):
